@@ -324,6 +324,16 @@ func (e *Engine) execFunc(st *State, fn *ssa.Function, args []Val, bind []Val, d
 	if depth > 12 {
 		fail("call depth exceeded at %s", fn)
 	}
+	if !st.spec && isSpecName(fn.Name()) {
+		// a specification function called from a hook: evaluated as specification code (pure, total reads)
+		st.spec = true
+		outs := e.execFunc(st, fn, args, bind, depth)
+		for _, o := range outs {
+			o.st.spec = false
+		}
+		st.spec = false
+		return outs
+	}
 	if st.spec && e.opaque[fn.Name()] && !(e.unfoldFn == fn && e.unfoldBudget > 0) {
 		return []Outcome{{st: st, ret: []Val{e.absApp(st, fn, args)}}}
 	}
@@ -342,7 +352,7 @@ func (e *Engine) execFunc(st *State, fn *ssa.Function, args []Val, bind []Val, d
 	e.analyzeLoops(fn)
 	if st.spec && depth > 1 && scalarResults(fn) && !e.noMerge {
 		// pure scalar spec function: evaluate path-wise on a clone and merge the results into one ite-term
-		key := fn.String() + "|" + renderVals(args) + "|" + st.bytesHeap().String() + fmt.Sprint(st.assume)
+		key := fn.String() + "|" + renderVals(args) + "|" + st.heapFingerprint() + fmt.Sprint(st.assume)
 		if m, ok := e.memo[key]; ok {
 			return []Outcome{{st: st, ret: m}}
 		}
@@ -975,6 +985,10 @@ func (e *Engine) binop(st *State, op token.Token, xv, yv Val, xt types.Type, ins
 		if _, ok := yv.(NilV); ok {
 			return Bool(op == token.NEQ) // a function literal is never nil
 		}
+	case PtrElemH, PtrElem, PtrCell:
+		if _, ok := yv.(NilV); ok {
+			return Bool(op == token.NEQ) // the address of a variable or of an element is never nil
+		}
 	case ChanV, FuncSym:
 		id := func(v Val) *Term {
 			switch x := v.(type) {
@@ -1587,6 +1601,14 @@ func (e *Engine) absApp(st *State, fn *ssa.Function, args []Val) Val {
 			ts = append(ts, x.Base, x.Off, x.Len)
 		case PtrHeap:
 			ts = append(ts, x.Ref)
+			for _, p := range x.Path {
+				ts = append(ts, BVu(uint64(p), 64))
+			}
+		case PtrElemH:
+			ts = append(ts, x.S.Base, Add(x.S.Off, x.Idx))
+			for _, p := range x.Path {
+				ts = append(ts, BVu(uint64(p), 64))
+			}
 		case IfaceSym:
 			ts = append(ts, x.ID)
 		default:
@@ -2001,4 +2023,9 @@ func (e *Engine) runDefers(st *State, fr *Frame, b *ssa.BasicBlock, next int) []
 		res = append(res, e.runDefers(o.st, f2, b, next)...)
 	}
 	return res
+}
+
+
+func isSpecName(n string) bool {
+	return strings.HasPrefix(n, "spec") || strings.HasPrefix(n, "Spec")
 }
